@@ -168,10 +168,14 @@ def extra_coverage(ctx):
     with coqchk, and the axiom summary it prints"""
     if ctx.tier != "thorough":
         return {}
+    whole = vlib.coq_hygiene(None)   # every coq/*.v (scratch files excluded), not only C20's dependencies
+    if whole:
+        ctx.broken.append("hygiene(whole tree): " + "; ".join(whole[:5]))
+        ctx.report_violation({"what": "forbidden construct in the Coq development", "where": whole[:20]}, no_input=True)
     mods = sorted("Zix." + f[:-3] for f in os.listdir(vlib.COQ) if f.startswith("Properties_") and f.endswith(".vo"))
     rc, out, err = vlib.sh(["coqchk", "-o", "-silent", "-Q", ".", "Zix"] + mods, cwd=vlib.COQ, timeout=3000)
     summary = out[out.find("CONTEXT SUMMARY"):] if "CONTEXT SUMMARY" in out else (out + err)[-1500:]
     if rc != 0:
         ctx.broken.append("coqchk: rc=%d %s" % (rc, (out + err)[-300:]))
         ctx.report_violation({"what": "coqchk rejected the compiled development", "log": (out + err)[-3000:]}, no_input=True)
-    return {"coqchk_modules": mods, "coqchk_rc": rc, "coqchk_summary": " ".join(summary.split())[:1500]}
+    return {"whole_tree_hygiene": whole or "clean", "coqchk_modules": mods, "coqchk_rc": rc, "coqchk_summary": " ".join(summary.split())[:1500]}
